@@ -53,6 +53,7 @@ def run(ck):
         groups.append(g)
     fam = gen.part_families(ck.rng, 240 if q else 5000, maxn=9 if q else 10, maxv=60 if q else 100, maxk=4 if q else 5)
     fam += gen.rnp_families(ck.rng, 400 if q else 6000)
+    fam += gen.window_tight_families(ck.rng, 400 if q else 6000)
     for i, g in enumerate(fam):
         if g["k"] ** len(g["vals"]) > 1200000:      # keep the TLA+ oracle (set of sorted sum vectors) affordable
             g["vals"] = g["vals"][:8]
@@ -64,14 +65,16 @@ def run(ck):
     # inputs on which a defect was once observed (kept as regression witnesses; see known_findings.json)
     for vals, k in (([68, 22, 72, 23, 31, 30, 4], 4), ([7, 4, 5, 5, 14, 7, 11, 11], 5), ([2, 2, 2, 3, 3, 5, 6], 4), ([12, 10, 8, 7, 6], 2), ([8, 5, 4, 2], 2)):
         groups.append({"vals": vals, "k": k, "calls": calls_for({"vals": vals, "k": k}, None, True)})
-    # deeper bounded-exhaustive scope for the recursive / sequential partitioners only: every bag of <= 7 values in 1..6 into 3, 4 and 5 bins
+    # deeper bounded-exhaustive scope for the recursive / sequential partitioners only: every bag of 6-7 values in 1..9 into 3 bins, 1..7 into 4 bins, 1..6 into 5 bins
     # (their even/odd branches and tree windows only do real work from about 7 items on)
-    deep = scope.p_scope(ck, 7, 6, 1, minv=1) if q else scope.p_scope(ck, 8, 6, 1, minv=1)
-    for g in deep:
-        if len(g["vals"]) >= 6:
-            for k in (3, 4, 5):
-                groups.append({"vals": g["vals"], "k": k, "calls": [call("rnp", "dict"), call("snp", "dict")] + ([call("ckk", "dict")] if k <= 4 else []), "watchdog": 20})
-    ck.cat("deep_rnp_snp_scope_groups", sum(1 for g in deep if len(g["vals"]) >= 6) * 3)
+    ndeep = 0
+    for (mn, mv, ks) in (((7, 9, (3,)), (7, 7, (4,)), (7, 6, (5,))) if q else ((8, 9, (3,)), (8, 7, (4,)), (8, 6, (5,)))):
+        for g in scope.p_scope(ck, mn, mv, 1, minv=1):
+            if len(g["vals"]) >= 6:
+                for k in ks:
+                    groups.append({"vals": g["vals"], "k": k, "calls": [call("rnp", "dict"), call("snp", "dict")] + ([call("ckk", "dict")] if k <= 4 else []), "watchdog": 20})
+                    ndeep += 1
+    ck.cat("deep_rnp_snp_scope_groups", ndeep)
     ck.rule = ("TLC enumerates every bag of <=%d values in 0..%d x k<=%d; dp (5 objectives, every k-parameter), complete greedy (16 switch "
                "combinations x 3 objectives), ckk, snp, rnp and (sub-sampled) ilp are executed on each; plus seeded random families n<=10, "
                "v<=100 (4-bin instances emphasised for rnp); optimum recomputed in TLA+ (Oracles.Opt). non-trivial = distinct (bag,k) with >=2 items and >=2 bins"
